@@ -127,8 +127,12 @@ def _diff_ensures(a, r):
     o, f = a.self, a.final.self
     nested = o.in_get_cursor_diff
     if nested is True:
+        # (the guard belongs to the call that is reading its report: the nested call leaves it set, or a second signal during the
+        #  same query would start a query of its own in the middle of the outer call's report)
         return [("post.nested", And(r == 0, f.another_sigwinch == True, f.top_usable_row == o.top_usable_row,  # noqa: E712
-                                    f.ghost_queries == o.ghost_queries))]
+                                    f.ghost_queries == o.ghost_queries)),
+                ("post.nested_leaves_the_guard_set", f.in_get_cursor_diff == True),  # noqa: E712
+                ("post.nested_leaves_the_last_row", f._last_cursor_row == o._last_cursor_row)]
     return [("post.conserve", (f.top_usable_row - o.top_usable_row) + r == f.ghost_moved - o.ghost_moved),
             ("post.flag", f.in_get_cursor_diff == False),  # noqa: E712
             ("post.queried", f.ghost_queries >= o.ghost_queries + 1)]
